@@ -530,13 +530,38 @@ func cmdCheck(args []string) {
 	}
 	staleFns := map[string]string{}
 	if !*writeBaseline {
+		// Ordinals have shifted when BOTH the number of loops / call sites of a name changed AND the source text
+		// at a chosen ordinal is different.  (A changed count alone: something was added after the chosen ones.
+		// Changed text alone: the chosen line itself was edited - the contract still speaks about it.)
+		countChanged := map[string]bool{} // fn \t kind ("loops" | "calls <callee>")
+		type textChange struct{ fn, key, was, now string }
+		var texts []textChange
 		for _, l := range readLines(anchorsPath) {
 			f := strings.SplitN(l, "\t", 3)
 			if len(f) != 3 {
 				continue
 			}
-			if cur, ok := curAnchors[f[0]+"\t"+f[1]]; ok && cur != f[2] {
-				staleFns[f[0]] = fmt.Sprintf("%s now refers to `%s` (was `%s`)", f[1], cur, f[2])
+			cur, ok := curAnchors[f[0]+"\t"+f[1]]
+			if !ok || cur == f[2] {
+				continue
+			}
+			if f[1] == "loops" || strings.HasPrefix(f[1], "calls ") {
+				countChanged[f[0]+"\t"+f[1]] = true
+			} else {
+				texts = append(texts, textChange{f[0], f[1], f[2], cur})
+			}
+		}
+		for _, t := range texts {
+			kind := "loops"
+			if strings.HasPrefix(t.key, "call ") {
+				callee := strings.TrimPrefix(t.key, "call ")
+				if k := strings.LastIndex(callee, "#"); k >= 0 {
+					callee = callee[:k]
+				}
+				kind = "calls " + callee
+			}
+			if countChanged[t.fn+"\t"+kind] {
+				staleFns[t.fn] = fmt.Sprintf("%s now refers to `%s` (was `%s`) and the number of such sites changed", t.key, t.now, t.was)
 			}
 		}
 	}
